@@ -38,6 +38,13 @@ CHECKS.append(
      "technique": "property-based testing over streams x read boundaries with exhaustive 1-/2-cut enumeration on short streams; the real reader thread runs in a deterministic simulation; oracle = sent-vs-delivered sequence and a deterministic progress measure",
      "text": "A real PeerConnection is fed streams of 1..6 messages in every 1-cut and (strided in quick, complete in thorough) 2-cut chunking of short streams, random k-cuts, byte-at-a-time and 2048-byte reads of longer ones; undecodable frames and frames with corrupted length fields (0, 1..19, shorter, longer) are inserted at every position. Valid frames must be delivered exactly once in order; corrupted lengths must leave the reader waiting for input or the connection closed - a spinning reader is detected deterministically by a loop-iteration budget, a dead reader by the kernel.",
      "note": "Trusted: dv/simkernel.py (queue/thread/time shims), the frames built by dv/refcodec.py. The connection is put in READY state directly."})
+ENGINES.append({"name": "E5-sched", "path": "dv/sched.py", "serves_properties": ["C15", "C16"],
+                "kind_free_text": "stateless bounded-exhaustive schedule explorer over the real code: preemption at line/call events (sys.monitoring) of the relevant functions + choices at blocking points; random schedules beyond the bound"})
+CHECKS.append(
+    {"id": "C16", "engine": "E5-sched", "category": "exploration", "design_ref": "DESIGN.md section 6 C16",
+     "technique": "systematic schedule enumeration (every interleaving with <= 3 deviations, line/call granularity, on the real generator code in the simulation kernel) + random schedules + sequential property-based checks with an independent successor/format model",
+     "text": "For every configuration (generator kind, start value incl. MAX-2..MAX, 2..3 threads, 1..3 draws each) all schedules with at most 3 preemptions / non-default picks are executed and the multiset of handed-out ids must be exactly the successors of the start value (distinct, non-zero, wrapping to 1); random schedules go to 6 deviations. Sequential runs of 10^5 draws across the wrap, end-to-end initial value vs start time over boundary and random timestamps (also through Node()), session-id format against an independent formatter.",
+     "note": "Exhaustive only within the deviation bound and the listed configurations; preemption granularity is source line / Python-level call, not bytecode."})
 
 _TODO = "check not built yet in this session (planned, see DESIGN.md); not claimed until its machinery is committed"
 NOT_APPLICABLE = [{"property_id": f"C{n:02d}", "reason": _TODO} for n in range(2, 21) if f"C{n:02d}" not in {c["id"] for c in CHECKS}]
